@@ -95,6 +95,7 @@ type Run struct {
 	WorkDir string
 	Repo    string
 	Thorough bool
+	FPStep   func() // failpoint pass: ends the scheduler's current epoch (nil otherwise)
 	FP       bool // failpoint pass: the quick case counts in both tiers (the thorough tier runs it under three seeds)
 
 	mu        sync.Mutex
@@ -131,6 +132,13 @@ func (r *Run) Pick(q, t int) int {
 		return t
 	}
 	return q
+}
+
+// StepFP asks the failpoint scheduler for a new choice of sites now (no-op outside the failpoint pass).
+func (r *Run) StepFP() {
+	if r.FPStep != nil {
+		r.FPStep()
+	}
 }
 
 // Seq is the process wide logical clock: the only notion of time oracles use.
